@@ -821,12 +821,33 @@ public:
         size_t         i;
     };
 
-    unordered_map() : m_pool(nullptr), m_pool_n(VSTD_TAB_MAX), m_size(0), m_reserved(0), m_mlf(1.0f)
+    unordered_map() : m_pool(nullptr), m_pool_n(VSTD_TAB_MAX), m_size(0), m_reserved(0), m_mlf(1.0f), m_buckets(0) { init_pool(); }
+    // bucket-count constructor: at least n buckets; an insertion is rehash-free while size <= bucket_count * max_load_factor
+    explicit unordered_map(size_t n) : m_pool(nullptr), m_pool_n(VSTD_TAB_MAX), m_size(0), m_reserved(0), m_mlf(1.0f), m_buckets(n)
+    {
+        init_pool();
+    }
+    void init_pool()
     {
         m_pool = __vf_alloc_array<node>(VSTD_TAB_MAX);
         for (size_t i = 0; i < VSTD_TAB_MAX; ++i)
         {
             m_pool[i].live = false;
+        }
+    }
+    // true if holding n elements is guaranteed not to need a rehash: covered by the last reserve(), or by the known lower
+    // bound of the bucket count under the current load factor
+    bool guaranteed(size_t n) const
+    {
+        return n <= m_reserved || (m_buckets != 0 && static_cast<float>(n) <= static_cast<float>(m_buckets) * m_mlf);
+    }
+    size_t bucket_count() const { return m_buckets != 0 ? m_buckets : 1; }
+    void   rehash(size_t n)
+    {
+        if (n > m_buckets)
+        {
+            __vf_check(m_size == 0, VF_UMAP_STALE_ITER);
+            m_buckets = n;
         }
     }
     unordered_map(const unordered_map&) = delete;
@@ -842,7 +863,7 @@ public:
     void  max_load_factor(float z)
     {
         m_mlf      = z;
-        m_reserved = 0; // any earlier reserve() guarantee is void under a new load factor
+        m_reserved = 0; // any earlier reserve() guarantee is void under a new load factor (a bucket-count bound stays)
     }
     void reserve(size_t n)
     {
@@ -914,7 +935,7 @@ public:
         // No reserve() guarantee covers this insertion => the table may rehash, which invalidates
         // every iterator.  libcappuccino keeps an iterator to every entry, so that is a contract
         // violation as soon as one entry exists.
-        __vf_check(m_size == 0 || m_size + 1 <= m_reserved, VF_UMAP_STALE_ITER);
+        __vf_check(m_size == 0 || guaranteed(m_size + 1), VF_UMAP_STALE_ITER);
         ensure_pool(m_size + 1);
         size_t n = __vf_npos;
         for (size_t i = 0; i < m_pool_n; ++i)
@@ -986,6 +1007,7 @@ public:
     size_t m_size;
     size_t m_reserved;
     float  m_mlf;
+    size_t m_buckets; // known lower bound of the bucket count (0: none given)
 };
 
 // ordered: multimap (Multi = true) and map (Multi = false)
